@@ -193,6 +193,11 @@ func (e *Enc) havocMods(st *State, mods ModSet, label string) {
 		if _, esc := e.escaped[k]; esc {
 			kind, ok = ModAny, true
 		}
+		if false && !ok && mods.opaque && h.Kind != HGhost && h.Kind != HAlloc {
+			// code without a body may allocate objects and initialise their fields in any heap:
+			// objects that existed before the call keep their content, fresh ones are unknown
+			kind, ok = ModFresh, true
+		}
 		if !ok {
 			continue
 		}
@@ -561,36 +566,45 @@ func (e *Enc) encodeAppend(args []ssa.Value, v *ssa.Call, st *State) {
 	tlen := e.define("ap$"+id+"$tl", "Int", "(s.len "+t+")")
 	n := e.define("ap$"+id+"$n", "Int", "(+ "+slen+" "+tlen+")")
 	fits := e.define("ap$"+id+"$fits", "Bool", "(<= "+n+" (s.cap "+x+"))")
-	Es := "(select " + E + " (s.arr " + x + "))"
-	Et := "(select " + E + " (s.arr " + t + "))"
+	qj := "qj!" + id
+	sArr, sCell := e.cellOf(args[0], qj)
+	tArr, tCell := e.cellOf(args[1], qj)
+	Es := "(select " + E + " " + sArr + ")"
+	Et := "(select " + E + " " + tArr + ")"
 	fresh := e.alloc(st, "ap$"+id)
 	arrSort := "(Array Int " + q(es) + ")"
 	var ain, afr string
 	afr = e.declare("ap$"+id+"$afr", arrSort)
-	qj := "qj!" + id
-	// fresh array: prefix copied from the old slice
-	e.fact(fmt.Sprintf("(forall ((%s Int)) (! (=> (and (<= 0 %s) (< %s %s)) (= (select %s %s) (select %s (at (s.off %s) %s)))) :pattern ((select %s %s))))",
-		qj, qj, qj, slen, afr, qj, Es, x, qj, afr, qj))
-	// the same fact triggered from the old element (so that "there is an index in the result" goals find their witness)
-	e.fact(fmt.Sprintf("(forall ((%s Int)) (! (=> (and (<= 0 %s) (< %s %s)) (= (select %s (at 0 %s)) (select %s (at (s.off %s) %s)))) :pattern ((select %s (at (s.off %s) %s)))))",
-		qj, qj, qj, slen, afr, qj, Es, x, qj, Es, x, qj))
+	// fresh array, absolute-index form: afr[j] is s[j] for j < len(s) and t[j-len(s)] after that
+	_, tCellShift := e.cellOf(args[1], "(- "+qj+" "+slen+")")
+	e.fact(fmt.Sprintf("(forall ((%s Int)) (! (=> (and (<= 0 %s) (< %s %s)) (= (select %s %s) (ite (< %s %s) (select %s %s) (select %s %s)))) :pattern ((select %s %s))))",
+		qj, qj, qj, n, afr, qj, qj, slen, Es, sCell, Et, tCellShift, afr, qj))
+	if _, isConst := constLenOf(args[1]); isConst {
+		// accumulate pattern (append(s, x)): the prefix fact is also triggered from the old cells,
+		// so that "there is an index in the result" goals find their witness. Not done for general
+		// appends: together with the absolute-index fact it can feed a matching loop.
+		e.fact(fmt.Sprintf("(forall ((%s Int)) (! (=> (and (<= 0 %s) (< %s %s)) (= (select %s (at 0 %s)) (select %s %s))) :pattern ((select %s %s))))",
+			qj, qj, qj, slen, afr, qj, Es, sCell, Es, sCell))
+	}
 	if cl, ok := constLenOf(args[1]); ok && cl <= 8 {
 		ainT := Es
 		for i := int64(0); i < cl; i++ {
-			el := fmt.Sprintf("(select %s (at (s.off %s) %d))", Et, t, i)
-			ainT = fmt.Sprintf("(store %s (at (s.off %s) (+ %s %d)) %s)", ainT, x, slen, i, el)
+			_, tc := e.cellOf(args[1], fmt.Sprint(i))
+			el := fmt.Sprintf("(select %s %s)", Et, tc)
+			_, sc := e.cellOf(args[0], fmt.Sprintf("(+ %s %d)", slen, i))
+			ainT = fmt.Sprintf("(store %s %s %s)", ainT, sc, el)
 			e.fact(fmt.Sprintf("(= (select %s (+ %s %d)) %s)", afr, slen, i, el))
+			e.fact(fmt.Sprintf("(= (select %s (at 0 (+ %s %d))) %s)", afr, slen, i, el))
 		}
 		ain = e.define("ap$"+id+"$ain", arrSort, ainT)
 	} else {
 		ain = e.declare("ap$"+id+"$ain", arrSort)
-		// in place: cells off+slen .. off+n-1 receive t, all other cells are unchanged
-		e.fact(fmt.Sprintf("(forall ((%s Int)) (! (=> (and (<= 0 %s) (< %s %s)) (= (select %s (at (s.off %s) (+ %s %s))) (select %s (at (s.off %s) %s)))) :pattern ((select %s (at (s.off %s) %s)))))",
-			qj, qj, qj, tlen, ain, x, slen, qj, Et, t, qj, Et, t, qj))
+		// in place (exact model only): cells off+slen .. off+n-1 receive t, all other cells are unchanged
+		_, sCellApp := e.cellOf(args[0], "(+ "+slen+" "+qj+")")
+		e.fact(fmt.Sprintf("(forall ((%s Int)) (! (=> (and (<= 0 %s) (< %s %s)) (= (select %s %s) (select %s %s))) :pattern ((select %s %s))))",
+			qj, qj, qj, tlen, ain, sCellApp, Et, tCell, Et, tCell))
 		e.fact(fmt.Sprintf("(forall ((%s Int)) (! (=> (or (< %s (+ (s.off %s) %s)) (>= %s (+ (s.off %s) %s))) (= (select %s %s) (select %s %s))) :pattern ((select %s %s))))",
 			qj, qj, x, slen, qj, x, n, ain, qj, Es, qj, ain, qj))
-		e.fact(fmt.Sprintf("(forall ((%s Int)) (! (=> (and (<= 0 %s) (< %s %s)) (= (select %s (+ %s %s)) (select %s (at (s.off %s) %s)))) :pattern ((select %s (at (s.off %s) %s)))))",
-			qj, qj, qj, tlen, afr, slen, qj, Et, t, qj, Et, t, qj))
 	}
 	ncap := e.declare("ap$"+id+"$cap", "Int")
 	e.fact("(>= " + ncap + " " + n + ")")
@@ -606,6 +620,9 @@ func (e *Enc) encodeAppend(args []ssa.Value, v *ssa.Call, st *State) {
 	nh := e.define(e.freshName(h.Name), h.Sort, fmt.Sprintf("(store %s %s %s)", E, fresh, afr))
 	st.set(h, nh)
 	e.setVal(v, "Slice", fmt.Sprintf("(ite (and (= %s 0) (= (s.arr %s) 0)) nilslice (mkslice %s 0 %s %s))", n, x, fresh, n, ncap))
+	// ground helper facts: they put the terms quantified facts are triggered on into the e-graph
+	r := e.vals[v]
+	e.fact(fmt.Sprintf("(and (= (s.off %s) 0) (= (s.len %s) %s) (=> (> %s 0) (and (= (s.arr %s) %s) (= (select %s (s.arr %s)) %s))))", r, r, n, n, r, fresh, nh, r, afr))
 }
 
 func (e *Enc) encodeCopy(args []ssa.Value, v *ssa.Call, st *State) {
